@@ -24,6 +24,7 @@ def step (line : String) : String :=
     | "inv" :: rest => Invariants.run rest
     | "sym" :: rest => Symmetry.run rest
     | "scl" :: rest => Scaling.run rest
+    | "ad" :: rest => AD.run rest
     | _ => none
   r.getD "bad-op"
 
